@@ -36,6 +36,26 @@ MANIFESTS = {
 }
 
 
+# manifests that exist but cannot take a requirement: the writer returns None and the next store is tried
+UNUSABLE = {
+    "pyproject.toml": '[project]\nname = "demo"\nversion = "0.1"\ndynamic = ["dependencies"]\n',
+    "setup.py": 'from setuptools import setup\n\nREQS = open("requirements.txt").read().split()\n\nsetup(name="demo", install_requires=REQS)\n',
+    "setup.cfg": "[metadata]\nname = demo\n\n[flake8]\nmax-line-length = 100\n",
+}
+
+
+def manifest_files(spec):
+    """spec = [kind, variant] | [kind, variant, [unusable kinds...]]  ->  {relpath: bytes}"""
+    kind, var = spec[0], spec[1]
+    out = {}
+    if kind != "none":
+        out[kind] = manifest_bytes(kind, var)
+    for u in (spec[2] if len(spec) > 2 else []):
+        if u != kind:
+            out[u] = UNUSABLE[u].encode()
+    return out
+
+
 def fold_file(rel, before: bytes, after: bytes | None, changesets, feats):
     """-> list of (kind, detail)"""
     out = []
@@ -154,7 +174,8 @@ def project_case(draw):
         files.append({"codemod": seq[0], "parts": parts, "file_ops": draw(progspace.file_ops())})
     mkind = draw(st.sampled_from(["none", "requirements.txt", "requirements.txt", "pyproject.toml", "setup.py", "setup.cfg"]))
     mvar = draw(st.sampled_from(["lf", "lf", "crlf", "nofinalnl", "trailing-blank", "trailing-ws", "leading-blank", "crlf+trailing-blank"]))
-    return {"sequence": seq, "files": files, "manifest": [mkind, mvar]}
+    unusable = draw(st.lists(st.sampled_from(sorted(UNUSABLE)), max_size=2, unique=True)) if draw(st.integers(0, 2)) == 0 else []
+    return {"sequence": seq, "files": files, "manifest": [mkind, mvar, unusable]}
 
 
 def manifest_bytes(kind, var):
@@ -182,16 +203,16 @@ def eval_project(case, stats):
         rendered.append((fc, rd))
     if not rendered:
         return
-    extra = {}
-    mkind, mvar = case["manifest"]
-    if mkind != "none":
-        extra[mkind] = manifest_bytes(mkind, mvar)
+    mkind, mvar = case["manifest"][:2]
+    extra = manifest_files(case["manifest"])
     obs = engine.run_batch(case["sequence"], rendered, extra_files=extra)
     if obs.res.exit != 0 or obs.res.report is None:
         stats.discard(f"run-exit-{obs.res.exit}")
         stats.labels["b:run-failed"] += 1
         return
     labels = ["b", f"b:seq={len(case['sequence'])}", "b:manifest=" + mkind + ("/" + mvar if mkind != "none" else "")]
+    if len(case["manifest"]) > 2 and case["manifest"][2]:
+        labels.append("b:unusable-manifest-first")
     if set(case["sequence"]) & set(ADDERS):
         labels.append("b:has-dependency-adder")
     feats = ["manifest:" + mkind, "manifest-variant:" + mvar] if mkind != "none" else []
